@@ -303,6 +303,24 @@ pub fn run_case(case: &Value, idx: usize, seed: u64, pool: &mut KeyPool, out: &m
 	}
 }
 
+/// random parameter sets mixing every field at once (beyond the TLC-enumerated sweeps)
+pub fn run_random(out_path: &str, n: usize) {
+	let seed = seed_from_env();
+	let mut out = Out::create(out_path);
+	let mut pool = KeyPool::new(3);
+	let mut rng = Rng::new(seed ^ 0x7a11d);
+	let algs = ["ed25519", "ed25519", "ecdsa-p256-sha256", "ecdsa-p384-sha384", "rsa-sha256", "rsa-sha384", "rsa-sha512"];
+	let kids = [json!({"k": "sha256", "b": []}), json!({"k": "sha384", "b": []}), json!({"k": "sha512", "b": []}), json!({"k": "pre", "b": [7, 7, 7]})];
+	for i in 0..n {
+		let is_self = rng.chance(1, 2);
+		let c = json!({"grp": "random", "_id": format!("random/{}/{}", seed, i), "params": random_params(&mut rng), "self": is_self,
+			"subjAlg": rng.pick(&algs), "signAlg": rng.pick(&algs), "issuerKid": rng.pick(&kids), "issuerDn": random_dn(&mut rng, 4),
+			"pubSrc": rng.pick(&["keypair", "keypair", "spki", "csr"]), "hash2": []});
+		run_case(&c, i, seed, &mut pool, &mut out);
+	}
+	out.finish();
+}
+
 pub fn run_cases(cases_path: &str, out_path: &str) {
 	let seed = seed_from_env();
 	let cases = read_ndjson(cases_path);
